@@ -716,7 +716,7 @@ else:
     # Limit the CombinationExpr to characters allowed in an Identifier plus whitespace
     # and the operator characters.
     CombinationExpr = constr(
-        min_length=1, max_length=1280, strict=True, regex=r"(?-m:^[A-Za-z0-9\*\(\), ]+\Z)"
+        min_length=1, max_length=1280, strict=True, regex=r"(?-m:^[A-Za-z0-9_\*\(\), ]+\Z)"
     )
 
 TaskRangeParameter = Union[RangeListTaskParameterDefinition, RangeExpressionTaskParameterDefinition]
